@@ -108,6 +108,16 @@ def handedFwd (ttl : Nat) (r : CheckResult) (ta : Nat) (doms : List Nat) : List 
        | _ => true) && handedFwd ttl r ta doms rest
     else true
 
+/-- wording only: did some later view, before a removal / higher add, show `r` or a dominating result? -/
+def shownFwd (r : CheckResult) : List Ev → Bool
+  | [] => false
+  | e :: rest =>
+    if clean r.workID (blk r) e then
+      (match e with
+       | .view _ out => out.any (fun r' => r'.workID == r.workID && decide (blk r ≤ blk r'))
+       | _ => false) || shownFwd r rest
+    else false
+
 def addOk (ttl : Nat) (revPre : List Ev) (ta : Nat) (r : CheckResult) (rest : List Ev) : Bool :=
   handedFwd ttl r ta (domTimes ttl r.workID (blk r) ta revPre 0) rest
 
@@ -146,7 +156,9 @@ def explainGo (ttl : Nat) : List Ev → List Ev → String
       else explainGo ttl (e :: revPre) rest
     | .add ta r =>
       if !addOk ttl revPre ta r rest then
-        "add dropped although no live entry with an equal or higher check block was stored"
+        (if shownFwd r rest then
+           "stored result missing from a later view before removal, expiry or a higher check block"
+         else "add dropped although no live entry with an equal or higher check block was stored")
       else explainGo ttl (e :: revPre) rest
     | _ => explainGo ttl (e :: revPre) rest
 
